@@ -9,6 +9,9 @@ ENGINES = [
      "serves_properties": ["C01"]},
     {"name": "E2 refsem", "path": "vlib/refsem.py", "kind_free_text":
         "independent reference distribution semantics as z3 terms", "serves_properties": ["C01"]},
+    {"name": "E3 tv", "path": "vlib/tv.py", "kind_free_text":
+        "SAT translation validation of LogicFormula/LogicDAG/CNF/DDNNF/DIMACS artifacts",
+     "serves_properties": ["C09", "C10"]},
 ]
 TV = "translation_validation"
 CHECKS = {
@@ -17,4 +20,12 @@ CHECKS = {
                 text="Per program skeleton the real grounding/compilation/evaluation code is run with symbolic weights; z3 decides equality with the reference distribution semantics for all 2^n worlds and all parameter values in the open unit box. Skeletons are enumerated (corpus + seeded generator), so the claim is bounded by the skeleton set.",
                 note="Trusted: reference semantics vlib/refsem.py (cross-checked by a z3 query per program), z3, floats-as-reals, tolerance constants as infinitesimals. Skeleton space is sampled, not symbolic."),
 }
+CHECKS["C09"] = dict(engine="E3 tv", category=TV,
+    technique="SAT translation validation: SCC-unrolled least-fixpoint encoding of the real LogicFormula vs LogicDAG vs CNF, z3 over all atom assignments",
+    text="Every ground program the real engine (and a synthetic cyclic-formula builder) produces is encoded from the real node tables; z3 proves for all atom assignments that break_cycles preserves every query/evidence node and that the CNF is exactly the completion (unique extension agreeing with the DAG), with constraints/weights/names carried over.",
+    note="Bounded by the set of ground programs explored (corpus, seeded generator, graph family, synthetic cyclic formulas). Trusted: the encoder vlib/tv.py and z3.")
+CHECKS["C10"] = dict(engine="E3 tv", category=TV,
+    technique="SAT translation validation of each real (CNF, d-DNNF) pair: determinism, equivalence, label agreement by z3; decomposability/smoothness from the node table",
+    text="Each d-DNNF returned by the real _compile/_load_nnf (dsharp) is checked node by node: decomposable and smooth syntactically, every OR node deterministic and the circuit equivalent to its CNF for all assignments by z3, labels/weights/constraints carried over.",
+    note="Bounded by the set of CNFs explored. dsharp itself is trusted only through these validated outputs.")
 NOT_APPLICABLE = {}
